@@ -8,7 +8,7 @@ nseeds = len([d for d in glob.glob(os.path.join(ROOT, "seeded", "C*-*")) if os.p
 nben = len(glob.glob(os.path.join(ROOT, "seeded", "benign-*", "patch.diff")))
 text = """## 9. Seeded changes
 
-%d changes were written by independent sub-agents in five rounds. Each agent saw only the
+%d changes were written by independent sub-agents in six rounds. Each agent saw only the
 text of one property and a scratch git worktree of the library (nothing from `/verif`), and
 had to deliver a change that compiles under both feature sets, passes the whole existing
 suite, breaks the property, and a demonstration test that fails with the change and passes
@@ -44,13 +44,44 @@ was in force; raw results in `notes/matrix/`). "failing input" = the check print
 property on the changed code; "broken only" = the check's correspondence (or a proof) broke,
 the search found no input violating *that* property, and it printed
 `VIOLATION ... no-failing-input-found` — expected for checks of *other* properties that share
-an operation with the changed code. Rows for rounds 1-3 were produced before the last
+an operation with the changed code. For the round-6 changes (`-7`, `-8`) only the own
+property's check was run, so their other columns are empty. Rows for rounds 1-3 were produced before the last
 improvements (C04-1 now yields a failing input through the mutation search). After the last
 changes to the machinery (hardening of `check`, new conclusion checks) all 120 changes were
 run once more against their own property's quick check: each is reported with a concrete
 failing input.
 
 %s
+**Round 6: changes built to evade random testing.** Eight agents (C01 C02 C03 C06 C07 C09 C10
+C12) were told that a harness compares the library with a reference model on tens of
+thousands of short random inputs per run and were asked for realistic changes whose trigger
+such a harness would not hit: size thresholds (block-wise wrapping above 1024 fragments,
+draining a line buffer every 1024 lines, 64 KiB and 256 KiB blocks), state that survives a
+call (thread-local scratch buffers not reset on optimal-fit's overflow-error path), exact
+arithmetic corner cases (a 1e-9 comparison tolerance, `total_cmp` and a line width of `-0.0`),
+particular characters (non-ASCII digits next to a hyphen, DEL in an "ASCII fast path", the C1
+string terminator U+009C inside an OSC, escape sequences longer than 2083 characters), and
+measuring a whole where the parts are measured. On first contact the checks reported 4 of the
+16 with a failing input and MISSED 12 — the honest measure of what the correspondence (a
+testing tie) could not see. Closing the gap without special-casing any of them: (i) call
+history — one case in 32 is preceded, on the same thread, by calls that end in optimal-fit's
+overflow error; (ii) numbers — tiny dyadic excesses `v ± k/2^40` and `-0.0` among first-fit
+widths (exact in f64 where numbers are only added and compared); (iii) alphabets — non-ASCII
+digits and numbers, C1 controls, hyphenated words built from them; (iv) literal harvesting —
+`tools/harvest.py` diffs the literals of `/repo/src` against a baseline copy
+(`/verif/baseline/src`, the tree the model was written against; it only directs the search):
+new character literals go to `VERIF_EXTRA_CHARS`, new integer literals between 16 and 8192
+(also `1 << k`, hex) to `VERIF_EXTRA_SIZES`, around which the harness then builds a bounded
+number of cases — that many (±1, ×1.5) words, paragraphs, lines, fragments, or characters
+inside one escape sequence; large fragment lists are judged against the arrangement the
+model of smawk finds (an upper bound on the minimum) instead of the quadratic reference
+search. After that 14 of the 16 are reported with a concrete failing input. The two that
+remain unreported (C01-7, C01-8) need a single paragraph above 64 KiB, respectively a text
+above 256 KiB: the extracted model needs minutes per such case, so sizes above 8192 are not
+chased. That is a stated limit (§10): a change whose only trigger is an input larger than
+the model can process in the time of a check is invisible to the correspondence, and since
+the theorems are about the model, not the code, nothing else would reveal it.
+
 **Systematic single-site mutants.** Independently of the hand-made changes, `tools/mutgen.py`
 applied classical mutation operators (relational and arithmetic operator swaps, `&&`/`||`,
 off-by-one constants, `min`/`max`, `trim` variants, `is_alphanumeric`/`is_alphabetic`,
